@@ -81,6 +81,16 @@ pub struct ConnMon {
     pub close_amp_blocked: bool,
 }
 
+/// Reset tokens a connection was given by its peer, by CID sequence number.
+#[derive(Default, Clone)]
+pub struct NciSeen {
+    pub tokens: BTreeMap<u64, [u8; 16]>,
+    pub max_rpt: u64,
+    pub srcs: Vec<SocketAddr>,
+    /// sequence numbers the receiving connection itself announced as retired
+    pub retired_sent: BTreeSet<u64>,
+}
+
 pub struct Mon {
     pub lane: Lane,
     pub cnt: Counters,
@@ -107,6 +117,8 @@ pub struct Mon {
     /// honest-peer world: any transport error between the peers is itself a finding
     pub honest: bool,
     pub rebinds: u32,
+    /// NEW_CONNECTION_ID frames that arrived (plaintext lane), per (receiving endpoint, pair id)
+    pub nci_seen: BTreeMap<(usize, u64), NciSeen>,
     /// DATAGRAM seqs (None for anonymous short ones) in arrival order per receiving connection
     pub dgram_arrivals: BTreeMap<(usize, usize), Vec<Option<u32>>>,
     pub last_reset_ns: BTreeMap<usize, u64>,
@@ -167,6 +179,7 @@ impl Mon {
             incoming_log: vec![],
             honest: true,
             rebinds: 0,
+            nci_seen: BTreeMap::new(),
             dgram_arrivals: BTreeMap::new(),
             last_reset_ns: BTreeMap::new(),
             pair_creations: BTreeMap::new(),
@@ -306,6 +319,16 @@ impl Mon {
                             Frame::Datagram { data, .. } if d.copy == 0 => {
                                 let seq = if data.len() >= 8 { Some(u32::from_le_bytes(data[..4].try_into().unwrap())) } else { None };
                                 self.dgram_arrivals.entry((ei, ch)).or_default().push(seq);
+                            }
+                            Frame::NewConnectionId { seq, retire_prior_to, token, .. } => {
+                                let n = self.nci_seen.entry((ei, conn.pair)).or_default();
+                                if n.tokens.len() < 256 {
+                                    n.tokens.insert(*seq, *token);
+                                }
+                                n.max_rpt = n.max_rpt.max(*retire_prior_to);
+                                if !n.srcs.contains(&d.src) {
+                                    n.srcs.push(d.src);
+                                }
                             }
                             Frame::MaxData(v) => cm.led_max_data = cm.led_max_data.max(*v),
                             Frame::MaxStreamData { id, max } => {
@@ -689,6 +712,18 @@ impl Mon {
                             prop: "C08",
                             msg: format!("conn {ei}/{ch}: first transmit after close() carries no CONNECTION_CLOSE"),
                         });
+                    }
+                }
+            }
+        }
+        // RETIRE_CONNECTION_ID frames this connection sent: the CIDs (and reset tokens) it has
+        // given up for certain
+        if self.lane == Lane::Null {
+            for f in decoded.iter().flatten().flatten().flat_map(|p| p.frames.iter()) {
+                if let Frame::RetireConnectionId { seq } = f {
+                    let n = self.nci_seen.entry((ei, conn.pair)).or_default();
+                    if n.retired_sent.len() < 4096 {
+                        n.retired_sent.insert(*seq);
                     }
                 }
             }
